@@ -1,6 +1,7 @@
 #ifndef PRIVATE_EMAIL_H
 #define PRIVATE_EMAIL_H
 
+#include <strings.h> /* strncasecmp */
 #include "auto_tld.h"
 
 #ifdef HAVE_IDNKIT
@@ -86,9 +87,10 @@
         } \
         result->is_ipv4 = true; \
     } \
-    else { /* try ipv6 */ \
-        ch = strchr (brs + 1, ':'); \
-        if ((ch == NULL) || (is_ipaddr (ch + 1, bre) == 0)) { \
+    else { /* IPv6-addr-literal = "IPv6:" IPv6-addr */ \
+        if ((strncasecmp (brs + 1, "IPv6:", 5) != 0) || \
+            (is_ipv6 (brs + 6, bre) == 0)) \
+        { \
             result->rc = inverse(EEAV_IPADDR_INVALID); \
             return result; \
         } \
